@@ -1,7 +1,7 @@
 --------------------------------------- MODULE Trace_Driver ----------------------------------------
 (* Trace validation for C07 / C18: every observed run of the real slicec binary with fake generators *)
 (* must be what DriverSpec!Expected demands for its scenario.                                        *)
-(* event: [ev |-> "run", cls, errfile, dry, allow, outdir, gens,                                     *)
+(* event: [ev |-> "run", cls, errfile, dry, allow, dup, outdir, gens,                                   *)
 (*         obs |-> [exit, started, captured, same_request, named, errors, warnings, file_errors,     *)
 (*                  foreign_lines, filers, stray, preexisting_ok, crashed, elapsed_ms]]              *)
 EXTENDS DriverSpec, TLC, Json, IOUtils
@@ -33,6 +33,7 @@ RunOk(e) ==
   /\ o.foreign_lines = 0                                    \* nothing else on the diagnostic stream
   /\ (e.allow => o.warnings = 0)
   /\ (e.cls = "warn" /\ ~e.allow => o.warnings > 0)        \* warnings alone never prevent generation (see started)
+  /\ (e.dup /\ ~e.allow /\ e.cls # "err_io" => o.warnings > 0)  \* a file listed twice: a warning, and nothing else changes
 
 Step == /\ l <= Len(Rec)
         /\ IF Rec[l].ev = "run" /\ RunOk(Rec[l]) THEN TRUE ELSE TLCSet(1, Append(TLCGet(1), l))
